@@ -205,9 +205,9 @@ UChk1(out) ==
            kp == KeyPages("ulc", op.pw.k) IN
          /\ tamp' = tm
          /\ IF resp.k = "short"
-            THEN /\ IF "ulc_short_response" \in Defects
-                    THEN out = (IF resp.n = 0 THEN "IndexError" ELSE "ValueError")     \* rb[0] of b"" / pyDes length check
-                    ELSE out = "False"
+            THEN /\ \/ out = "False"                                                  \* (after the repair)
+                    \/ /\ "ulc_short_response" \in Defects
+                       /\ out = (IF resp.n = 0 THEN "IndexError" ELSE "ValueError")  \* rb[0] of b"" / pyDes length check
                  /\ rd' = RdAfter(out) /\ AuthFinish(out, tag, tm) /\ UNCHANGED <<op, nchal>>
             ELSE /\ out = "cont" /\ nchal' = nchal + 1
                  /\ op' = [op EXCEPT !.ra = nchal + 1,
@@ -230,10 +230,10 @@ UChk2(out) ==
     /\ pc = "u_c2"
     /\ LET tm == tamp \/ resp # orig
            ok == resp.k = "e3" /\ resp.f = 0 /\ resp.key = KeyPages("ulc", op.pw.k) /\ resp.iv = op.m2 /\ resp.ra = op.ra
-           res == IF resp.k = "short" /\ resp.n # 0
-                  THEN (IF "ulc_short_response" \in Defects THEN "ValueError" ELSE "False")
-                  ELSE IF ok THEN "True" ELSE "False" IN
-         /\ out = res /\ tamp' = tm /\ rd' = RdAfter(res) /\ AuthFinish(res, tag, tm)
+           res == IF ok THEN "True" ELSE "False" IN
+         /\ \/ out = res
+            \/ resp.k = "short" /\ resp.n # 0 /\ "ulc_short_response" \in Defects /\ out = "ValueError"
+         /\ tamp' = tm /\ rd' = RdAfter(out) /\ AuthFinish(out, tag, tm)
     /\ UNCHANGED <<tag, op, hist, nadv, ncut, nchal, wlog>>
 
 \* ---- the procedures as tables: which command the reader sends in which control state -------------------------
@@ -347,10 +347,11 @@ StartFormat ==
     /\ tamp' = FALSE /\ wlog' = <<>> /\ rd' = rd
     /\ LET v == NdefView(tag, rd)
            t1 == IF NdefNaks(tag) THEN ReadNak(tag) ELSE tag IN
-         /\ tag' = t1
-         /\ \/ v # "none" /\ Goto("f_base")
-            \/ v = "none" /\ ("fmt_defaults_unchecked" \in Defects \/ CcAllowsFormat(t1, rd)) /\ Goto("f_w4")
-            \/ v = "none" /\ ~CcAllowsFormat(t1, rd) /\ Goto("f_no")
+         \/ v # "none" /\ tag' = t1 /\ Goto("f_base")
+         \/ v = "none" /\ ("fmt_defaults_unchecked" \in Defects \/ CcAllowsFormat(t1, rd)) /\ tag' = t1 /\ Goto("f_w4")
+         \* (the repaired code reads page 3 to decide: a tag that refuses this READ is mute afterwards)
+         \/ /\ v = "none" /\ ~CcAllowsFormat(t1, rd) /\ Goto("f_no")
+            /\ tag' = IF Alive(t1) /\ ~CcReadable(t1) THEN ReadNak(t1) ELSE t1
     /\ UNCHANGED <<hist, nadv, ncut, nchal, prot>>
 \* Type2Tag._format: `if self.ndef and self.ndef.is_writeable` ... True, else False (its writes are C03's base part)
 FBase(out) == /\ pc = "f_base" /\ rd' = rd /\ UNCHANGED <<op, tamp, hist, nadv, ncut, nchal, wlog>>
